@@ -33,17 +33,12 @@ CONFIGS = {
 
 
 def _source_files(repo):
-    out = subprocess.run(
-        ["git", "-C", repo, "ls-files", "-co", "--exclude-standard"],
-        capture_output=True, text=True, check=True).stdout.split("\n")
     keep = []
-    for f in out:
-        if not f:
-            continue
-        if f.startswith("target/") or "/target/" in f:
-            continue
-        if f.endswith((".rs", ".pest", "Cargo.toml", "Cargo.lock")) or "/.cargo/" in f or f.startswith(".cargo/"):
-            keep.append(f)
+    for root, dirs, files in os.walk(repo):
+        dirs[:] = [d for d in dirs if d not in ("target", ".git", "out", "node_modules")]
+        for fn in files:
+            if fn.endswith((".rs", ".pest")) or fn in ("Cargo.toml", "Cargo.lock", "config.toml", "rust-toolchain", "rust-toolchain.toml", "build.rs"):
+                keep.append(os.path.relpath(os.path.join(root, fn), repo))
     keep.sort()
     return keep
 
